@@ -3,7 +3,7 @@
 cd /verif || exit 1
 export CARGO_NET_OFFLINE=true
 mkdir -p work evidence replays
-(cd harness && cargo build --release) || exit 1
+(cd harness && cargo build --release && cargo build --profile dbg) || exit 1
 (cd tsan && RUSTFLAGS="-Zsanitizer=thread --cap-lints allow" cargo +nightly build -Zbuild-std --target x86_64-unknown-linux-gnu --release) || exit 1
 (cd harness && RUSTFLAGS="--cap-lints allow" cargo +nightly fuzz build) || exit 1
 echo "setup ok"
